@@ -456,6 +456,27 @@ class World:
             raise ValueError(lbl)
         self.check_prefix()
 
+    def possible(self, lbl):
+        """can the real system take this model action now?"""
+        op = lbl[0]
+        if self.cut_done:
+            return False
+        if op in ('W', 'E', 'C', 'X'):
+            app = self.apps.get(lbl[1])
+            if app is None or app.closed or app.lost:
+                return False
+            if op in 'WE' and app.fin_sent:
+                return False
+            if op == 'X' and self.sock_state(lbl[1]) != 'open':
+                return False
+        if op == 'DOA':
+            return bool(self.inflight(self.tA))
+        if op == 'DAO':
+            return bool(self.inflight(self.tO))
+        if op == 'LSN':
+            return self.lsn is not None
+        return True
+
     def quiescent(self):
         return not self.inflight(self.tO) and not self.inflight(self.tA)
 
@@ -540,6 +561,9 @@ class World:
         """monitors that hold when nothing is in flight"""
         L, R = self.apps['L'], self.apps['R']
         clean = not self.refused and not self.resets and not self.cut_done
+        if clean and R is None:
+            self.flag('Complete', 'the open was not refused but the '
+                      'destination was never connected')
         if clean:
             for e, o in (('R', 'L'), ('L', 'R')):
                 app = self.apps[e]
@@ -663,17 +687,23 @@ def replay(steps, kind='local', keep_l=True, keep_r=True,
         for i, (lbl, S) in enumerate(steps):
             if cut_at is not None and i >= cut_at:
                 break
+            if not w.possible(lbl):
+                # only after a divergence: go on without the model, the
+                # monitors still judge what L and R see
+                if not res['diverged']:
+                    res['diverged'] = f'step {i} {lbl}: not possible'
+                continue
             w.do(lbl)
             res['steps'] += 1
             if lbl[0] == 'CUT':
                 w.check_released()
-            d = compare(w.observe(), model_obs(S, w.sizes))
-            if d:
-                res['diverged'] = f'step {i} {lbl}: {d}'
-                break
+            if not res['diverged']:
+                d = compare(w.observe(), model_obs(S, w.sizes))
+                if d:
+                    res['diverged'] = f'step {i} {lbl}: {d}'
             if w.quiescent() and not w.cut_done:
                 w.check_quiescent()
-        if not res['diverged'] and not w.cut_done and cut_at is None:
+        if not w.cut_done and cut_at is None:
             w.drain()
             w.check_quiescent()
         if not w.cut_done:
@@ -693,7 +723,13 @@ def replay_coarse(labels, kind='local', keep_l=True, keep_r=True,
     """Coarse replay: only application actions (and LSN), auto delivery."""
     w = World(kind, keep_l, keep_r, sizes, manual=False)
     res = {'diverged': None, 'l1': [], 'script': []}
-    w.start()
+    try:
+        w.start()
+    except asyncssh.ChannelOpenError as exc:
+        w.stop()
+        res['l1'] = [('Complete', f'open to a reachable destination failed: '
+                      f'{exc.reason}')]
+        return res
     try:
         if chunk:
             for t in list(w.loop.net.transports):
@@ -751,6 +787,9 @@ def features(w):
             f.append('local-lost-before-confirm')
     if not w.resets and not w.refused:
         f.append('no-reset')
+        if not w.fin_after_eof:
+            # both ends sent their FIN before they saw the other's EOF
+            f.append('eof-crossing')
     return f
 
 
@@ -942,8 +981,10 @@ def socks_judge(obs, want, overlong_field):
         l1.append(('RelayFIFO', 'bytes following the request were not '
                    f'relayed intact: {obs["out"][:20]!r} != {want["out"][:20]!r}'))
     if obs['leak']:
-        l1.append(('Released', 'relayed sockets left after the SOCKS client '
-                   'went away'))
+        pending = want['connect'] is None and not want['closed']
+        l1.append(('Released', 'the forwarder\'s socket is left open after '
+                   'the SOCKS client went away' +
+                   (' in the middle of its request' if pending else '')))
     div = None
     if not l1:
         for key in ('replies', 'connect', 'closed'):
@@ -1232,17 +1273,7 @@ def run_labels(labels, kind='local', keep_l=True, keep_r=True,
             op = lbl[0]
             if w.cut_done:
                 break
-            if op in ('W', 'E', 'C', 'X'):
-                app = w.apps.get(lbl[1])
-                if app is None or app.closed or app.lost:
-                    continue
-                if op in 'WE' and app.fin_sent:
-                    continue
-                if op == 'X' and w.sock_state(lbl[1]) != 'open':
-                    continue
-            if op == 'DOA' and not w.inflight(w.tA):
-                continue
-            if op == 'DAO' and not w.inflight(w.tO):
+            if not w.possible(lbl):
                 continue
             w.do(lbl)
             if lbl[0] == 'CUT':
@@ -1385,3 +1416,196 @@ def isolation_case(kind, n=3):
     finally:
         w.stop()
     return res
+
+
+# ======================================================================
+# Real loopback sockets on the real selector loop (thorough tier): only
+# timing-insensitive monitors (bytes complete and in order, EOF passed on,
+# a reset ends the other side, nothing left after the connection ended)
+# ======================================================================
+
+def real_loop_cases(workdir, kinds=('local', 'remote', 'socks5', 'lpath'),
+                    timeout=20.0):
+    import os
+    import shutil
+    import tempfile
+    results = []
+    k = keys()
+
+    class Server(asyncssh.SSHServer):
+        def begin_auth(self, username):
+            return False
+
+        def connection_requested(self, dest_host, dest_port, orig_host,
+                                 orig_port):
+            return True
+
+        def server_requested(self, listen_host, listen_port):
+            return True
+
+        def unix_connection_requested(self, dest_path):
+            return True
+
+    async def scenario(kind, pattern, tmp):
+        l1 = []
+        r_conns = []
+        r_done = asyncio.Event()
+        r_got = bytearray()
+        r_state = {}
+        r_reply = bytes(range(256)) * 2048          # 512 KiB
+
+        async def r_handler(reader, writer):
+            r_conns.append(writer)
+            try:
+                if pattern == 'reset':
+                    # keep writing until the connection is torn down
+                    try:
+                        while True:
+                            writer.write(b'x' * 65536)
+                            await asyncio.wait_for(writer.drain(), timeout)
+                            await asyncio.sleep(0.01)
+                    except (ConnectionError, asyncio.TimeoutError) as exc:
+                        r_state['ended'] = type(exc).__name__
+                    return
+                if pattern == 'r-first':
+                    writer.write(r_reply)
+                while True:
+                    data = await reader.read(65536)
+                    if not data:
+                        break
+                    r_got.extend(data)
+                r_state['eof'] = True
+                if pattern != 'r-first':
+                    writer.write(r_reply)       # after L's half-close
+                await writer.drain()
+                writer.close()
+            finally:
+                r_done.set()
+
+        unix = kind == 'lpath'
+        acceptor = await asyncssh.listen('127.0.0.1', 0, server_factory=Server,
+                                         server_host_keys=[k['host']])
+        sport = acceptor.get_port()
+        if unix:
+            rpath = os.path.join(tmp, 'r.sock')
+            rsrv = await asyncio.start_unix_server(r_handler, rpath)
+        else:
+            rsrv = await asyncio.start_server(r_handler, '127.0.0.1', 0)
+            rport = rsrv.sockets[0].getsockname()[1]
+        conn = await asyncssh.connect('127.0.0.1', sport, known_hosts=None,
+                                      config=None, client_keys=None)
+        try:
+            if kind == 'local':
+                lsn = await conn.forward_local_port('127.0.0.1', 0,
+                                                    '127.0.0.1', rport)
+            elif kind == 'remote':
+                lsn = await conn.forward_remote_port('127.0.0.1', 0,
+                                                     '127.0.0.1', rport)
+            elif kind == 'socks5':
+                lsn = await conn.forward_socks('127.0.0.1', 0)
+            else:
+                lpath = os.path.join(tmp, 'l.sock')
+                lsn = await conn.forward_local_path(lpath, rpath)
+            if unix:
+                reader, writer = await asyncio.open_unix_connection(lpath)
+            else:
+                lport = lsn.get_port()
+                reader, writer = await asyncio.open_connection('127.0.0.1',
+                                                               lport)
+            sent = bytearray()
+            if kind == 'socks5':
+                p = bytes((rport >> 8, rport & 255))
+                # request and first payload in one segment (early data)
+                writer.write(b'\x05\x01\x00')
+                rep = await asyncio.wait_for(reader.readexactly(2), timeout)
+                writer.write(b'\x05\x01\x00\x01\x7f\x00\x00\x01' + p)
+                rep += await asyncio.wait_for(reader.readexactly(10), timeout)
+                if rep != b'\x05\x00\x05\x00\x00\x01' + bytes(6):
+                    l1.append(('SocksReply', rep.hex()))
+            if pattern == 'reset':
+                # L goes away abruptly while R keeps sending
+                await asyncio.sleep(0.05)
+                import socket as _s
+                import struct
+                sock = writer.get_extra_info('socket')
+                if not unix:
+                    sock.setsockopt(_s.SOL_SOCKET, _s.SO_LINGER,
+                                    struct.pack('ii', 1, 0))
+                writer.transport.abort()
+                try:
+                    await asyncio.wait_for(r_done.wait(), timeout)
+                except asyncio.TimeoutError:
+                    l1.append(('CloseBoth', 'local connection was reset but '
+                               'the destination was never closed'))
+            else:
+                # immediately after connect: before the channel is confirmed
+                for i in range(16):
+                    chunk = bytes(((i * 7 + j) % 251 for j in range(4099))) * 8
+                    writer.write(chunk)
+                    sent += chunk
+                    if i % 5 == 0:
+                        await writer.drain()
+                writer.write_eof()
+                got = await asyncio.wait_for(reader.read(-1), timeout)
+                await asyncio.wait_for(r_done.wait(), timeout)
+                if bytes(r_got) != bytes(sent):
+                    l1.append(('Complete', f'destination received '
+                               f'{len(r_got)} of {len(sent)} bytes'))
+                if not r_state.get('eof'):
+                    l1.append(('HalfClose', 'destination never saw EOF'))
+                if got != r_reply:
+                    l1.append(('Complete', f'local end received {len(got)} '
+                               f'of {len(r_reply)} bytes sent after / '
+                               'around its half-close'))
+                writer.close()
+        finally:
+            conn.close()
+            await asyncio.wait_for(conn.wait_closed(), timeout)
+        await asyncio.sleep(0.05)
+        # nothing of the connection is left: the forward port refuses
+        if kind in ('local', 'socks5', 'remote'):
+            try:
+                _, w2 = await asyncio.wait_for(
+                    asyncio.open_connection('127.0.0.1', lport), timeout)
+                w2.close()
+                l1.append(('NoListenerLeft', f'port {lport} still accepts '
+                           'after the SSH connection was closed'))
+            except OSError:
+                pass
+        else:
+            try:
+                _, w2 = await asyncio.open_unix_connection(lpath)
+                w2.close()
+                l1.append(('NoListenerLeft', 'UNIX listener still accepts '
+                           'after the SSH connection was closed'))
+            except OSError:
+                pass
+        rsrv.close()
+        acceptor.close()
+        await acceptor.wait_closed()
+        return l1
+
+    old = None
+    tmp = tempfile.mkdtemp(prefix='c20r', dir=workdir)
+    loop = asyncio.new_event_loop()
+    try:
+        asyncio.set_event_loop(loop)
+        for kind in kinds:
+            for pattern in ('l-first', 'r-first', 'reset'):
+                sub = tempfile.mkdtemp(prefix='s', dir=tmp)
+                try:
+                    l1 = loop.run_until_complete(
+                        asyncio.wait_for(scenario(kind, pattern, sub),
+                                         6 * timeout))
+                    results.append((kind, pattern, l1, None))
+                except Exception as exc:    # pylint: disable=broad-except
+                    results.append((kind, pattern, [], repr(exc)))
+    finally:
+        try:
+            loop.run_until_complete(loop.shutdown_asyncgens())
+        except Exception:                   # pylint: disable=broad-except
+            pass
+        asyncio.set_event_loop(None)
+        loop.close()
+        shutil.rmtree(tmp, ignore_errors=True)
+    return results
